@@ -1083,7 +1083,7 @@ func (s *TreeShapeListener) EnterHttp_path_var_with_type(ctx *parser.Http_path_v
 		type1 = &sysl.Type{}
 		s.typemap[s.fieldname[len(s.fieldname)-1]] = type1
 	default:
-		ref_path := []string{ctx.Name_str().GetText()}
+		ref_path := []string{MustUnescape(ctx.Name_str().GetText())}
 
 		type1 = &sysl.Type{
 			Type: &sysl.Type_TypeRef{
